@@ -19,6 +19,9 @@ structure ChkInfo where
   minTs : Int
   maxTs : Int
   root : Nat
+  /-- `Recs`: how many of the chunk's records the hull accounts for (0 = unknown: a snapshot written before the field
+  existed, or — on a tree without the repair of F06, which never looks at it — simply unused) -/
+  recs : Nat
 deriving DecidableEq, Repr
 
 /-- `journals`: partition → chunks sorted by id (the JSON object written to `cindex.dat`) -/
@@ -57,32 +60,41 @@ def ChkInfo.update (ci : ChkInfo) (mn mx : Int) : ChkInfo :=
   { ci with minTs := if ci.minTs > mn then mn else ci.minTs, maxTs := if ci.maxTs < mx then mx else ci.maxTs }
 
 /-- hull part of `cindex.onWrite(src, …, rInfo{Id, MinTs, MaxTs})` -/
-def cindexOnWrite (m : CMap) (src : Src) (cid : Nat) (mn mx : Int) : CMap :=
+def cindexOnWrite (m : CMap) (src : Src) (cid : Nat) (mn mx : Int) (n : Nat) : CMap :=
+  -- `n` = `lastRec + 1`: the number of records of the chunk after this write (`last.Recs = lastRec + 1`)
   match alookup m src with
-  | none => aset m src [⟨cid, mn, mx, 0⟩]
+  | none => aset m src [⟨cid, mn, mx, 0, n⟩]
   | some sc =>
     match sc.getLast? with
-    | none => aset m src [⟨cid, mn, mx, 0⟩]
+    | none => aset m src [⟨cid, mn, mx, 0, n⟩]
     | some last =>
-      if last.id ≠ cid then aset m src (sc ++ [⟨cid, mn, mx, 0⟩])
-      else aset m src (sc.dropLast ++ [last.update mn mx])
+      if last.id ≠ cid then aset m src (sc ++ [⟨cid, mn, mx, 0, n⟩])
+      else aset m src (sc.dropLast ++ [{ last.update mn mx with recs := n }])
 
 /-- `lightFill` for one chunk: skipped when `MaxTs > 0`; an empty chunk stays as it is; otherwise the hull is
 the first and the last record's timestamps (swapped when the last is smaller) -/
 def lightFill1 (ck : Chunk) (ci : ChkInfo) : ChkInfo :=
   if ci.maxTs > 0 then ci else
   match ck.recs.head?, ck.recs.getLast? with
-  | some a, some b => if b < a then { ci with minTs := b, maxTs := a } else { ci with minTs := a, maxTs := b }
+  | some a, some b =>
+    if b < a then { ci with minTs := b, maxTs := a, recs := ck.recs.length }
+    else { ci with minTs := a, maxTs := b, recs := ck.recs.length }
   | _, _ => ci
 
 /-- `syncChunks` for one chunk of the journal: a chunk the index knows keeps its object (the second `apply`
 puts the old object back, so `lightFill`'s work on a copy of a known chunk is dropped); an unknown chunk starts
 as `{MinTs: MaxInt64, MaxTs: 0}` and goes through `lightFill`. Chunk ids are sorted and unique on both sides, so
 the two-pointer merge of `apply` is a look-up by id. -/
-def syncChunk (old : List ChkInfo) (ck : Chunk) : ChkInfo :=
+def syncChunkB (drops : Bool) (old : List ChkInfo) (ck : Chunk) : ChkInfo :=
   match old.find? (fun o => o.id == ck.id) with
-  | some o => o
-  | none => lightFill1 ck ⟨ck.id, maxInt64, 0, 0⟩
+  | some o =>
+    -- `dropStale` (repair of F06, `drops`): the chunk holds more records than the entry accounts for — it has grown since
+    -- the hull was taken (a snapshot from before a crash) — so the entry is dropped and the chunk handled as unknown
+    if drops && decide (o.recs < ck.recs.length) then lightFill1 ck ⟨ck.id, maxInt64, 0, 0, 0⟩ else o
+  | none => lightFill1 ck ⟨ck.id, maxInt64, 0, 0, 0⟩
+
+def syncChunk (old : List ChkInfo) (ck : Chunk) : ChkInfo :=
+  syncChunkB Logrange.Generated.C07.syncChunksDropsStaleEntries old ck
 
 def syncChunks (old : List ChkInfo) (cks : List Chunk) : List ChkInfo := cks.map (syncChunk old)
 
@@ -109,7 +121,9 @@ skips it) and the chunk holds a record outside that hull — a stale snapshot of
 def staleGrown (old : List ChkInfo) (cks : List Chunk) : Bool :=
   cks.any fun ck =>
     match old.find? (fun o => o.id == ck.id) with
-    | some o => decide (o.maxTs > 0) && ck.recs.any (fun t => decide (t < o.minTs) || decide (t > o.maxTs))
+    | some o =>
+      !(Logrange.Generated.C07.syncChunksDropsStaleEntries && decide (o.recs < ck.recs.length)) &&
+        decide (o.maxTs > 0) && ck.recs.any (fun t => decide (t < o.minTs) || decide (t > o.maxTs))
     | none => false
 
 end Logrange.Persist
